@@ -10,6 +10,8 @@ def run(ctx: Ctx) -> None:
     ctx.floor("T11x.expv", 50)
     ctx.floor("T11x.expflow", 12)
     ctx.floor("T11x.dtype", 8)
+    t11_expv.run_svf_steps(ctx)
+    ctx.floor("T11x.svf-steps", 8)
     from ..tables import t67_transforms
     with ctx.only("T67.inverse-velocity"), ctx.parallel():  # the inverse clause at the SVF transforms' displacement buffers
         t67_transforms.run_inverse(ctx)
